@@ -178,7 +178,10 @@ class PermutationAwareMappingAlgorithm(GeneralizedSabreAlgorithm):
                     if isinstance(op.gate, BarrierPlaceholder):
                         if modify_circuit:
                             physical_location = [pi[q] for q in op.location]
-                            mapped_circuit.append_gate(op.gate, op.location)
+                            mapped_circuit.append_gate(
+                                op.gate,
+                                physical_location,
+                            )
                         continue
 
                     p1, circ, p2 = self._get_best_perm(
